@@ -46,7 +46,7 @@ func init() {
 		MinEvals:        floor(200000, 3000000),
 		MinDistinct:     floor(8000, 150000),
 		RequiredCells: func(string) []string {
-			return []string{"mut/bitflip", "mut/delete", "mut/insert", "mut/substitute", "mut/field-rewrite", "mut/sig-other-key", "mut/sig-transplant", "mut/sig-truncated", "mut/sig-zeroed", "mut/sig-junk", "mut/sig-junk-on-rewritten-payload", "mut/sig-extended", "mut/sig-by-did-prefix-colliding-key", "mut/header-swap", "mut/header-swap-resigned", "mut/own-header-variant-resigned", "mut/extra-key-resigned", "mut/other-tag-resigned", "mut/json-field-rewrite", "mut/json-char-edit",
+			return []string{"mut/bitflip", "mut/delete", "mut/insert", "mut/substitute", "mut/field-rewrite", "mut/sig-other-key", "mut/sig-transplant", "mut/sig-truncated", "mut/sig-zeroed", "mut/sig-junk", "mut/sig-junk-on-rewritten-payload", "mut/sig-extended", "mut/sig-by-did-prefix-colliding-key", "mut/header-swap", "mut/header-swap-resigned", "mut/own-header-variant-resigned", "mut/signed-over-dagjson-text", "mut/extra-key-resigned", "mut/other-tag-resigned", "mut/json-field-rewrite", "mut/json-char-edit",
 				"concurrent", "concurrent/genuine", "concurrent/forged", "concurrent/large", "outcome/rejected", "outcome/accepted-same-content", "base/dlg", "base/inv", "base/ed25519", "base/non-ed25519"}
 		},
 	})
@@ -649,6 +649,30 @@ func runC06(w *mon.W) {
 					}
 				}
 				_ = name
+			}
+			// the issuer's key signing another ENCODING of the signed part (its DAG-JSON text), under
+			// the genuine header and under headers that announce dag-json: the signature is not one
+			// over the canonical encoding of what is decoded
+			for hn, hv := range map[string][]byte{"genuine": h, "announces-json": variants["last-byte-json"], "json-appended": append(append([]byte{}, h...), 0xa9, 0x02)} {
+				sp := ref.SigPayload(hv, b.info.Tag, b.info.Payload)
+				js, err := ref.EncodeDagJson(sp)
+				if err != nil {
+					continue
+				}
+				sig, err := def.iss.Priv.Sign(js)
+				if err != nil {
+					continue
+				}
+				re := ref.List(ref.Bytes(sig), sp)
+				if enc, err := ref.EncodeDagCbor(re); err == nil {
+					c06Offer(w, b, "signed-over-dagjson-text", enc, "dagcbor", decs)
+				}
+				if b.json != nil {
+					if enc, err := ref.EncodeDagJson(re); err == nil {
+						c06Offer(w, b, "signed-over-dagjson-text", enc, "dagjson", decs)
+					}
+				}
+				_ = hn
 			}
 		}
 		// 6. envelope shape edits, re-signed by the issuer
